@@ -881,6 +881,10 @@ func init() {
 			if c.IsTrue() || p.w.solver.CheckWith(c) == Sat {
 				p.covers = append(p.covers, id)
 				p.w.coverSeen[id] = true
+				if !c.IsTrue() {
+					// holds for some, not all, values of this path: not part of a witness
+					p.softCovers = append(p.softCovers, id)
+				}
 			}
 			return nil
 		},
